@@ -179,40 +179,79 @@ def _enable_if_is_void(ret):
 
 
 def run_bounded_reads(chk, F):
-    """E5: every read from the caller's buffer in deserialize / rec_deserialize is dominated by a decision on the
-    remaining length (a comparison involving buffer_size or an end pointer)"""
-    READS = ('deserialize_value_from_char_buffer', 'deserialize_filtration_value', 'deserialize_trivial', 'memcpy')
+    """E5: every read from the caller's buffer in deserialize / rec_deserialize is bounded: since the previous read the
+    path has passed a decision on the remaining length (a comparison involving buffer_size or an end pointer) or a
+    call of a checker - a function of the class that compares its arguments with `end` and throws. The read done by
+    the filtration functor of the caller (whose size only the functor knows) may instead be followed by such a check
+    before the next read."""
+    READS = ('deserialize_value_from_char_buffer', 'deserialize_trivial', 'memcpy')
+    FUNCTOR = ('deserialize_filtration_value',)
+    checkers = set()
+    for g in F.funcs(cls='Simplex_tree', unit='st_pat'):
+        if g['inst'] in (0, 2) and g.get('body') is not None and len(g.get('params', [])) >= 2 and \
+                ir.contains(g['body'], lambda y: y.get('k') == 'CXXThrowExpr') and \
+                any(x.get('k') == 'IfStmt' and any(
+                    y.get('k') == 'BinaryOperator' and y.get('op') in ('<', '>', '<=', '>=') and
+                    re.search(r'\bend\b(?!\()', ir.show(y)) for y in ir.walk(x.get('cond')))
+                    for x in ir.walk(g['body'])) and \
+                not ir.contains(g['body'], lambda y: ir.is_call(y) and ir.call_name(y) in READS):
+            checkers.add(g['name'])
     n = 0
     for name in ('deserialize', 'rec_deserialize'):
         fs = [f for f in F.funcs(name, cls='Simplex_tree', unit='st_pat') if f['inst'] in (0, 2)]
         for f in fs:
-            if not ir.contains(f['body'], lambda y: ir.is_call(y) and (ir.call_name(y) in READS or
-                                                                       ir.show(ir.callee_expr(y)) in READS)):
+            in_lambda = {id(z) for lam in ir.walk(f['body']) if lam.get('k') == 'LambdaExpr'
+                         for z in ir.walk(lam.get('body'))}      # the functor handed on: its read is the FREAD of the callee
+
+            def kind(y, in_lambda=in_lambda):
+                if not ir.is_call(y) or id(y) in in_lambda:
+                    return None
+                nm = ir.call_name(y) or ir.show(ir.callee_expr(y))
+                if nm in READS or ir.show(ir.callee_expr(y)) in READS:
+                    return 'READ'
+                if nm in FUNCTOR or ir.show(ir.callee_expr(y)) in FUNCTOR:
+                    return 'FREAD'
+                if nm in checkers:
+                    return 'CHECK'
+                return None
+            if not ir.contains(f['body'], lambda y: kind(y) in ('READ', 'FREAD')):
                 continue
             n += 1
 
             def cl(x):
-                if ir.is_call(x) and (ir.call_name(x) in READS or ir.show(ir.callee_expr(x)) in READS):
-                    return ['READ']
-                return []
+                k = kind(x)
+                return [k] if k else []
             ps = paths.enumerate_paths(f, cl, loop_mode='1', keep_conds=True)
             bad = None
             for p in ps:
                 bounded = False
+                pending = None          # a functor read waiting for its check
                 for tag, node in p.events:
                     if tag == '?' and not isinstance(node[0], tuple):
-                        t = ir.show(node[0])
-                        if ('buffer_size' in t or 'buffer_end' in t or 'end' in t.split('(')[0]) and \
-                                any(op in t for op in ('<', '>')):
-                            bounded = True
-                    elif tag == 'READ' and not bounded and bad is None:
-                        bad = node
+                        if any(y.get('k') == 'BinaryOperator' and y.get('op') in ('<', '>', '<=', '>=') and
+                               re.search(r'buffer_size|buffer_end|\bend\b(?!\()', ir.show(y))
+                               for y in ir.walk(node[0])):
+                            bounded, pending = True, None
+                    elif tag == 'CHECK':
+                        bounded, pending = True, None
+                    elif tag in ('READ', 'FREAD'):
+                        if pending is not None and bad is None:
+                            bad = pending
+                        if not bounded:
+                            if tag == 'FREAD':
+                                pending = node
+                            elif bad is None:
+                                bad = node
+                        bounded = False
+                if pending is not None and p.end != 'throw' and bad is None:
+                    bad = pending
             chk.ob('E5-bounded-read', 'Simplex_tree::%s checks the remaining length before reading the buffer'
                    % name, '%s:%d' % (rel(f['file']), f['line']), bad is None,
                    '' if bad is None else 'the read at line %s is not dominated by any comparison with the buffer '
                    'length: a truncated buffer is read past its end before the final length test can throw'
                    % bad.get('l'), key='E5|Simplex_tree::%s|unbounded-read|%d' % (name, len(f['params'])))
     chk.expect_count('E5-bounded-read', 'deserialisation functions reading the buffer', n, 2)
+    chk.count('bound checkers of the deserialisation', len(checkers))
 
 
 def run_static_state(chk, F):
@@ -932,6 +971,60 @@ def run_assertions(chk, F):
     c09.run_assert_purity(chk, F, by=by, min_count=40)
 
 
+def run_moved_from_functions(chk, F):
+    """E1m-function: "a moved-from object is empty and usable again". A std::function member of a matrix-level class
+    which the move constructor moves away from the source (`m(std::move(other.m))`) is empty afterwards and calling it
+    throws std::bad_function_call; no setter exists for the comparators of the chain matrix: the same constructor gives
+    the source a target again (`other.m = ...`).
+    E1-rows-kept: the copy constructor of Matrix_row_access treats both kinds of row containers: the arm for removable
+    rows (a map) also reads the rows of the source - a row that is empty but not erased exists in the copy."""
+    n = 0
+    for c in F.classes:
+        if c.get('inst') != 0 or c['name'] not in MATRIX_LEVEL:
+            continue
+        fmembers = [fl['n'] for fl in c.get('fields', []) if 'std::function<' in (fl.get('ct') or fl.get('t') or '')]
+        if not fmembers:
+            continue
+        mcs = [f for f in F.functions if f.get('clsname') == c['name'] and f.get('kind') == 'move_ctor' and
+               f.get('inst') in (0, 2) and f.get('body') is not None]
+        for f in mcs[:1]:
+            src = f['params'][0]['n']
+            for mname in fmembers:
+                ini = _init_of(f, mname)
+                moved = ini is not None and _mentions_other_field(ini, src, mname) and 'move' in ir.show(ini)
+                if not moved:
+                    continue
+                n += 1
+                given = any(ir.write_target(x) is not None and x.get('op') == '=' and
+                            ir.show(ir.write_target(x)).replace(' ', '') == '%s.%s' % (src, mname)
+                            for x in ir.walk(f['body']))
+                chk.ob('E1m-function', '%s: the move constructor gives `%s.%s` a target again' % (c['name'], src, mname),
+                       '%s:%d' % (rel(f['file']), f['line']), given,
+                       '' if given else '`%s` is moved away from the source and stays empty: the refilled moved-from '
+                       'matrix throws std::bad_function_call when it next compares two bars' % mname,
+                       key='E1m|%s|%s|function' % (c['name'], mname))
+    chk.expect_count('E1m-function', 'std::function members moved by a move constructor', n, 2)
+    cs = [f for f in F.functions if f.get('clsname') == 'Matrix_row_access' and f.get('kind') == 'copy_ctor' and
+          f.get('inst') in (0, 2) and f.get('body') is not None]
+    if not cs:
+        raise AnalysisBroken('C15: copy constructor of Matrix_row_access not found')
+    f = cs[0]
+    src = f['params'][0]['n']
+    tests = [x for x in ir.walk(f['body']) if x.get('k') == 'IfStmt' and x.get('constexpr') and
+             'has_removable_rows' in ir.show(x.get('cond'))]
+    ok = bool(tests)
+    for t in tests:
+        for arm in (t.get('then'), t.get('else')):
+            if arm is None or not ir.contains(arm, lambda y: y.get('k') in ir.MEMBER_KINDS and y.get('n') == 'rows_' and
+                                              y.get('c') and (ir.skipcasts(y['c'][0]) or {}).get('n') == src):
+                ok = False
+    chk.ob('E1-rows-kept', 'Matrix_row_access: the copy constructor reads the rows of its source for both kinds of row '
+           'containers', '%s:%d' % (rel(f['file']), f['line']), ok,
+           '' if ok else 'an arm of the test on has_removable_rows does not look at `%s.rows_`: the rows which are empty '
+           'but not erased are missing in the copy (get_row throws on the copy only)' % src,
+           key='E1|Matrix_row_access|rows-kept')
+
+
 def run_moved_from_cache(chk, F):
     """E1b-cache: "a moved-from object is empty and usable again": a cache member (tables/c15.json, kind `cache`) of
     the source is left empty by a move. Moving the container out (`f = std::move(src.f)`, `std::exchange`) or clearing
@@ -1074,6 +1167,7 @@ def run(tier, replay=None):
     run_copy_counters(chk, F)
     run_text_roundtrip(chk, F)
     run_moved_from(chk, F)
+    run_moved_from_functions(chk, F)
     # deserialisation rebuilds the dimension bound of the tree it creates (shared rule C01/R3b)
     from rules import c01, c03
     from gsa import summary
